@@ -173,10 +173,20 @@ def _confirm(ctx, binp, sigs, inputs_of):
         todo.append((s, g, case))
     if todo:
         again = _replay_cases(ctx, binp, [c for _, _, c in todo])
+        lost = []
         for (s, g, case), got in zip(todo, again):
-            if not any(g2[4:] == s for g2 in got):
-                raise Machinery("reject %r did not reproduce on re-execution (got %r): not reported as a violation" % (s, got[:3]))
+            # reproduced: the same request shape is rejected again with the same status; the SIZE of a chaotic effect (how much of
+            # a tree a broken transfer destroys or duplicates) may differ between two executions
+            shape = s.split(" eff=")[0]
+            if not any(g2[4:] == s or g2[4:].split(" eff=")[0] == shape for g2 in got):
+                lost.append((s, got[:3]))
+                continue
             g["record"] = {"case": case, "observed": g["record"]}
+        for s, got in lost:
+            log("[note] reject %r did not reproduce on re-execution (got %r): not reported" % (s, got))
+            del sigs[s]
+        if lost and not [x for x in sigs if x not in kn]:
+            raise Machinery("none of the %d rejected observations reproduced on re-execution, e.g. %r" % (len(lost), lost[0]))
     return sigs
 
 
@@ -306,6 +316,7 @@ def run(ctx, replay=None):
             product("empty-files", e["reqs"], treemod=2, treerem=ctx.seed % 2, trees=e["trees"])
             product("big-trees", env["REQOUT"], trees=big_instance())
             pairs()
+            product("main-prefixnames", env["REQOUT"], treemod=8, treerem=(ctx.seed + 1) % 8, conc="prefixnames")
             hists(60, 16, ctx.seed)
         else:
             product("main", env["REQOUT"])
@@ -319,6 +330,7 @@ def run(ctx, replay=None):
             product("main-dots", env["REQOUT"], treemod=4, treerem=(ctx.seed + 2) % 4, conc="dots")
             pairs()
             pairs("special")
+            product("main-prefixnames", env["REQOUT"], treemod=2, treerem=ctx.seed % 2, conc="prefixnames")
             for i in range(4):
                 hists(250, 24, ctx.seed * 10 + i, conc=["id", "space", "special", "dots"][i])
     elif prop == "C02":
@@ -331,6 +343,7 @@ def run(ctx, replay=None):
             # names that begin or end with dots (not dot segments): containment and path arithmetic must not be fooled by them
             product("main-dots", env["REQOUT"], treemod=8, treerem=ctx.seed % 8, conc="dots")
             raw_slice([ctx.seed % 4])
+            product("main-prefixnames", env["REQOUT"], treemod=12, treerem=(ctx.seed + 3) % 12, conc="prefixnames")
             # a sibling named like a scratch file of the target ("a.part", "a.tmp", "a~", ".a.tmp"): a failing upload to "a" must not touch it
             for ci, cn in enumerate(("parts", "tmps", "tildes", "dottmp")):
                 product("fault-" + cn, env["FAULTOUT"], treemod=12, treerem=(ctx.seed + 5 * ci) % 12, conc=cn)
@@ -358,6 +371,14 @@ def run(ctx, replay=None):
         product("oslimits", env["REQOUT"], conc="toolong", trees=lt)
         # configurations: the served directory spelled with a trailing slash, "/.", a doubled separator, a dot-dot detour
         # (rotating over the recorder's shards); everything else as in the main product
+        # a listing beyond a thousand resources (limits are a place where messages get written)
+        ht = os.path.join(gen, "huge-tree.ndjson")
+        vlib.write_ndjson(ht, [[{"p": [], "k": "c", "d": "", "n": 0}, {"p": ["a"], "k": "c", "d": "", "n": 0}, {"p": ["b"], "k": "f", "d": "x", "n": 0}]
+                               + [{"p": ["a", "m%04d" % i], "k": "f", "d": "", "n": 0} for i in range(1100)]])
+        hr = os.path.join(gen, "huge-reqs.ndjson")
+        vlib.write_ndjson(hr, [r for r in vlib.read_ndjson(env["REQOUT"]) if r["m"] in ("PROPFIND", "COPY", "MOVE", "DELETE", "GET") and r["p"] in ([], ["a"])
+                               and r.get("dp", []) in ([], ["a"], ["b"], ["a", "a"], ["b", "a"])])
+        product("huge-tree", hr, trees=ht)
         product("rootspell", env["REQOUT"], treemod=(8 if q else 2), treerem=(ctx.seed + 3) % (8 if q else 2), rootstyle=-1)
         if q:
             product("main", env["REQOUT"], treemod=4, treerem=ctx.seed % 4)
